@@ -78,6 +78,9 @@ def run(rep, tier, seed):
                 'non-trivial = stack depth >= 1; distinct by (type, value)')
     rep.assumptions = ['text codecs of character strings trusted', 'correspondence covers the cases run only']
     g = gen.Gen(rng, max_depth=1)
+    from harness import kernels
+    kernels.obligations(rep, ['encodeTag'])
+    kernels.check(rep, drv, seed, 400 if tier == 'quick' else 20000, which=('encodeTag',))
 
     # ---- correspondence: identifier octets of single tags, model vs code
     enc = ber_encoder.AbstractItemEncoder()
